@@ -4,6 +4,8 @@ import (
 	"fmt"
 	"sort"
 
+	"github.com/RoaringBitmap/roaring"
+
 	segment "github.com/blugelabs/bluge_segment_api"
 	ice "github.com/blugelabs/ice/v2"
 
@@ -23,6 +25,9 @@ type plRec struct {
 	pl   segment.PostingsList
 	kind string // 1hit | general | empty
 	seg  int
+	// what the list stands for (to iterate it again later: a list stays valid while only its ITERATOR is recycled)
+	field, term string
+	except      *roaring.Bitmap
 }
 type piRec struct {
 	pi   segment.PostingsIterator
@@ -61,7 +66,34 @@ func c13Run(c *runner.Ctx) {
 		for step := 0; step < steps; step++ {
 			si := r.Intn(len(segs))
 			sg := segs[si]
-			switch op := r.Intn(10); {
+			switch op := r.Intn(11); {
+			case op == 10: // iterate an OLD list again: it must still answer as when it was created
+				if len(pls) == 0 {
+					continue
+				}
+				pr := pls[r.Intn(len(pls))]
+				if pr.pl == nil || pr.kind == "empty" {
+					continue
+				}
+				osg := segs[pr.seg]
+				q := navReq{sg: osg, field: pr.field, term: pr.term, except: pr.except, havePL: pr.pl, stopAt: 1, sig: "reuse:old-list:",
+					fl: [3]bool{r.Intn(2) == 0, r.Intn(2) == 0, r.Intn(2) == 0}}
+				if len(pis) > 0 && r.Intn(2) == 0 {
+					k := r.Intn(len(pis))
+					q.prePI = pis[k].pi
+					pis = append(pis[:k], pis[k+1:]...) // handed over
+				}
+				log = append(log, fmt.Sprintf("R(seg%d,%q,%q,%s)", pr.seg, pr.field, pr.term, flagsStr(q.fl)))
+				_, pi, _, ok := navigate(c, r, q)
+				c.Eval(1)
+				if !ok {
+					c.Inc("sequences_failed", 1)
+					return
+				}
+				if pi != nil {
+					pis = append(pis, piRec{pi, pr.kind, pr.seg, false})
+				}
+				c.Inc("old_lists_iterated_again", 1)
 			case op < 6: // postings lookup with reuse
 				var q navReq
 				q.sg = sg
@@ -104,16 +136,21 @@ func c13Run(c *runner.Ctx) {
 				}
 				var prePLKind, prePIKind string
 				prePLSeg, prePISeg := -1, -1
+				// an object handed over as prealloc leaves the pool: from now on it IS the new lookup's object
 				if len(pls) > 0 && r.Intn(5) > 0 {
-					p := pls[r.Intn(len(pls))]
+					k := r.Intn(len(pls))
+					p := pls[k]
 					q.prePL, prePLKind, prePLSeg = p.pl, p.kind, p.seg
+					pls = append(pls[:k], pls[k+1:]...)
 				}
 				if len(pis) > 0 && r.Intn(5) > 0 {
-					p := pis[r.Intn(len(pis))]
+					k := r.Intn(len(pis))
+					p := pis[k]
 					q.prePI, prePIKind, prePISeg = p.pi, p.kind, p.seg
 					if p.half {
 						prePIKind += "-half"
 					}
+					pis = append(pis[:k], pis[k+1:]...)
 				}
 				log = append(log, fmt.Sprintf("L(seg%d,%q,%q,%s,pl<-%s,pi<-%s)", si, q.field, q.term, flagsStr(q.fl), prePLKind, prePIKind))
 				pl, pi, st, ok := navigate(c, r, q)
@@ -133,7 +170,7 @@ func c13Run(c *runner.Ctx) {
 				}
 				// a replaced iterator shares the caller's bitmap; keep it out of the pool only if ReplaceActual was used on it
 				if pl != nil {
-					pls = append(pls, plRec{pl, kind, si})
+					pls = append(pls, plRec{pl, kind, si, q.field, q.term, q.except})
 				}
 				if pi != nil {
 					pis = append(pis, piRec{pi, kind, si, q.stopAt < 1})
